@@ -2923,7 +2923,11 @@ class Mailbox:
                     # the messages proper uids for their new mailbox, update
                     # mailbox sequences, etc.
                     #
-                    async with self.mailbox.lock_folder():
+                    # NOTE: It is the destination's folder we are working on
+                    #       here. (This used to lock the source folder, which
+                    #       has been released by now and may even be gone.)
+                    #
+                    async with dst_mbox.mailbox.lock_folder():
                         await dst_mbox.check_new_msgs_and_flags(optional=False)
 
                     # Now get the uid's for all the newly copied messages.
